@@ -121,23 +121,66 @@ func (c *config) SyncConfig() {
 				}
 			}
 		}
-		if c.global.StrictHost && host.FindPath("/", hatypes.MatchBegin) == nil {
-			var back *hatypes.Backend
-			defaultHost := c.hosts.DefaultHost()
-			if defaultHost != nil {
-				if path := defaultHost.FindPath("/"); len(path) > 0 {
-					hback := path[0].Backend
-					back = c.backends.FindBackend(hback.Namespace, hback.Name, hback.Port)
+	}
+	if c.global.StrictHost {
+		c.syncStrictHost()
+	}
+}
+
+// syncStrictHost ensures that all the hosts have a root path: a host that does
+// not declare it borrows the backend of the root path of the default host or,
+// if missing, the default backend. All the hosts are evaluated on every update,
+// not only the changed ones: the borrowed backend belongs to other resources,
+// so it can be replaced, removed or rebuilt without the host being changed.
+func (c *config) syncStrictHost() {
+	// TODO c.defaultBackend can be nil; create a valid
+	// _error404 backend, remove `if nil` from host.AddPath()
+	// and from `for range host.Paths` on map building.
+	back := c.backends.DefaultBackend
+	defaultHost := c.hosts.DefaultHost()
+	if defaultHost != nil {
+		for _, path := range defaultHost.FindPath("/") {
+			if !path.StrictHost {
+				hback := path.Backend
+				if b := c.backends.FindBackend(hback.Namespace, hback.Name, hback.Port); b != nil {
+					back = b
 				}
+				break
 			}
-			if back == nil {
-				// TODO c.defaultBackend can be nil; create a valid
-				// _error404 backend, remove `if nil` from host.AddPath()
-				// and from `for range host.Paths` on map building.
-				back = c.backends.DefaultBackend
-			}
-			host.AddPath(back, "/", hatypes.MatchBegin)
 		}
+	}
+	backID := "_error404"
+	if back != nil {
+		backID = back.ID
+	}
+	// sorted, so the backend paths are always added in the same order
+	hosts := c.hosts.BuildSortedItems()
+	if defaultHost != nil {
+		hosts = append(hosts, defaultHost)
+	}
+	for _, host := range hosts {
+		if host.SSLPassthrough() {
+			// no action if ssl-passthrough
+			continue
+		}
+		if paths := host.FindPath("/", hatypes.MatchBegin); len(paths) > 0 {
+			old := paths[0]
+			if !old.StrictHost {
+				// declared root path
+				continue
+			}
+			if old.Backend.ID != backID {
+				// another target, the host is changed
+				c.hosts.ChangeHost(host)
+			} else if back == nil || back.FindBackendPath(old.Link) != nil {
+				// up to date
+				continue
+			}
+			// otherwise same target but the backend was built again: adding the
+			// very same path links the new backend and doesn't change the host
+			host.RemovePath(old)
+		}
+		host.AddPath(back, "/", hatypes.MatchBegin).StrictHost = true
 	}
 }
 
